@@ -185,6 +185,72 @@ def _starts(s, p):
     return s.startswith(p)
 
 
+# ------------------------------------------------------------ links converted through a url_schemes template
+
+SCHEME_CONFIGS = [{"http": None, "wiki": {"url": "https://w.invalid/{{path}}#{{fragment}}", "title": "T {{path}}", "classes": ["wk"]}, "doi": "https://doi.invalid/{{path}}"},
+                  {"wiki": {"url": "https://w.invalid/{{path}}#{{fragment}}"}, "doi": {"url": "https://doi.invalid/{{path}}", "title": "{{uri}}"}}]
+SCHEME_PATHS = ["Page", "a/b", "P#frag", "10.1/x_y"]
+
+
+def check_scheme_links(ci, scheme, pi, real=False):
+    """An explicit text is carried into the link leaf by leaf whatever the template says; only a text-less link or an autolink takes the title template."""
+    from docutils import nodes
+
+    path = SCHEME_PATHS[pi]
+    dest = "%s:%s" % (scheme, path)
+    text = "[some *text* `c`](%s)\n\n<%s>\n\n[](%s)\n" % (dest, dest, dest)
+    ctx = CR.new_context(real=real, config={"url_schemes": SCHEME_CONFIGS[ci]})
+    ctx.renderer._render_tokens(ctx.md.parse(text, ctx.renderer.md_env))
+    paras = [p_ for p_ in ctx.document.findall(nodes.paragraph) if not isinstance(p_.parent, nodes.system_message)]
+    if len(paras) != 3:
+        return ("scheme-link-paragraphs", "%d paragraphs" % len(paras))
+    conv = SCHEME_CONFIGS[ci][scheme]
+    conv = {"url": conv} if isinstance(conv, str) else conv
+    p_, _, frag = path.partition("#")
+    parts = {"uri": dest, "scheme": scheme, "path": p_, "fragment": frag}
+    fill = lambda t: t.replace("{{path}}", parts["path"]).replace("{{fragment}}", parts["fragment"]).replace("{{uri}}", parts["uri"])  # noqa
+    want_uri = fill(conv["url"])
+    for k, para in enumerate(paras):
+        refs = list(para.findall(nodes.reference))
+        if len(refs) != 1:
+            return ("scheme-link-count", "%d references for %r" % (len(refs), text.split("\n\n")[k]))
+        r = refs[0]
+        if r.get("refuri") != want_uri:
+            return ("scheme-link-uri", "%r through %r gives refuri %r, expected %r" % (dest, conv, r.get("refuri"), want_uri))
+        if k == 0:
+            leaves = [(type(n_.parent).__name__, str(n_)) for n_ in r.findall(nodes.Text)]
+            if leaves != [("reference", "some "), ("emphasis", "text"), ("reference", " "), ("literal", "c")]:
+                return ("scheme-link-text-lost", "[some *text* `c`](%s) with url_schemes %r renders the link text as %r" % (dest, conv, leaves))
+        else:
+            want = fill(conv["title"]) if "title" in conv else (dest if k == 1 else "")  # (a text-less link without a title template has no text, as in CommonMark)
+            if r.astext() != want:
+                return ("scheme-link-implicit-text", "%r with url_schemes %r shows %r, expected %r" % (text.split("\n\n")[k], conv, r.astext(), want))
+    return None
+
+
+def make_scheme_links(eng):
+    setup()
+    c = CR.Choice(eng)
+    state = {}
+    eng.witness_fn = lambda m: dict(state)
+
+    def body():
+        c.reset()
+        ci, scheme, pi = c.choose(len(SCHEME_CONFIGS)), c.pick(["wiki", "doi"]), c.choose(len(SCHEME_PATHS))
+        state.update(scheme_link=[ci, scheme, pi])
+        try:
+            err = check_scheme_links(ci, scheme, pi)
+        except Exception as exc:  # noqa
+            eng.fail("render-raises", "%s: %s" % (type(exc).__name__, exc))
+        if err:
+            eng.fail(*err)
+        eng.passed(3)
+        eng.note("attr")
+        return "ok"
+
+    return body
+
+
 def make_image(eng, n):
     setup()
     src = lift(new_str(eng, "s", n, alphabet="a/.:h#"))
@@ -845,6 +911,8 @@ def families(tier, seed):
     for n in ([3, 4] if q else [4, 5, 6]):
         F.append(Family("link/N%d" % n, make_link, "all link destinations of %d chars over '#:/.ahipnv&\\'' x all_links_external" % n, args=dict(n=n, alphabet="#:/.ahipnv&'"), nontrivial="attr", max_forks=200000,
                         required=(n <= (4 if q else 5))))
+    F.append(Family("link-url-schemes", make_scheme_links, "links with explicit text (emphasis, code), autolinks and text-less links whose scheme has a url_schemes template (with / without a title template, string or dict form), paths %r: "
+                    "explicit text kept leaf by leaf, title template only for implicit text, refuri = filled template" % (SCHEME_PATHS,), nontrivial="attr", max_forks=1000))
     F.append(Family("link-sphinx/N3", make_link_sphinx, "Sphinx renderer: all link destinations of 3 chars over '#a./' (non-URL): the pending_xref carries the destination unchanged, '#' links stay local", args=dict(n=3, alphabet="#a./"),
                     nontrivial="attr", max_forks=100000))
     F.append(Family("image", make_image, "image src 3 symbolic chars, alt 2 symbolic chars", args=dict(n=3), nontrivial="attr", max_forks=100000))
@@ -873,6 +941,9 @@ def replay(label, witness):
         if "text" in witness:
             err = compare_doc(witness["text"], witness["mode"], real=True)
             return ("C02/%s" % err[0], "document %r: %s" % (witness["text"], err[1])) if err else None
+        if "scheme_link" in witness:
+            err = check_scheme_links(*witness["scheme_link"], real=True)
+            return ("C02/%s" % err[0], err[1]) if err else None
         if "sphinx_href" in witness:
             err = check_sphinx_link(sphinx_context(real=True), witness["sphinx_href"])
             return ("C02/%s" % err[0], err[1]) if err else None
